@@ -69,19 +69,20 @@ theorem fact_store_calls :
     Facts.C09.ambassadorStoreCalls = ["handleCreateDIDDocument:Add", "handleUpdateDIDDocument:Resolve",
       "handleUpdateDIDDocument:Resolve", "handleUpdateDIDDocument:Add"] := by decide
 
-/-- `handleUpdateDIDDocument`: version by prevs, fallback to latest, controllers, signing key, thumbprint search, add -/
+/-- `handleUpdateDIDDocument`: versions by prevs (all of them; the first one found is the succeeded version), fallback
+    to latest, controllers, signing key, thumbprint search, the same check for every other named version, add -/
 theorem fact_update_steps :
     Facts.C09.updateSteps = ["didStore.Resolve", "didStore.Resolve", "resolveControllers",
-      "keyResolver.ResolvePublicKey", "findKeyByThumbprint", "didStore.Add"] ∧
+      "keyResolver.ResolvePublicKey", "findKeyByThumbprint", "resolveControllers", "findKeyByThumbprint", "didStore.Add"] ∧
     Facts.C09.updateFallsBackToLatest = true := by decide
 
 /-- the succeeded version only ever comes from the store (by prev, then latest; never the proposed document), the
     fallback refuses on ANY error (an unknown DID cannot be updated), and the authorising keys are collected from the
     controllers' `CapabilityInvocation` only (model: `currentVersion`, `capInvOf`) -/
 theorem fact_succeeded_version_and_key_collection :
-    Facts.C09.succeededVersionSources = ["n.didStore.Resolve", "n.didStore.Resolve"] ∧
+    Facts.C09.succeededVersionSources = ["version", "n.didStore.Resolve"] ∧
     Facts.C09.updateFallbackErrorCondition = "err != nil" ∧
-    Facts.C09.controllerKeysCollectedFrom = ["CapabilityInvocation"] := by decide
+    Facts.C09.controllerKeysCollectedFrom = ["CapabilityInvocation", "CapabilityInvocation"] := by decide
 
 /-- `ambassador.resolveControllers`: per-prev errors skipped, by-signing-time fallback when nothing was found -/
 theorem fact_ambassador_controller_resolution :
@@ -193,6 +194,41 @@ theorem accepted_update_sound (c : Cfg) (s s' : Store) (tx : Tx) (pd : Option ND
     exact ⟨d, cur, ctrl, e, k, k', hpd, hval, currentVersion_ok s d.id tx.prevs cur hcur,
       ambControllers_sound c s cur tx ctrls hctrls ctrl hctrl, hmem, hk', hk, ht, hadd⟩
 
+/-- **Every version the prevs name.** An accepted update is authorised not only by the first version of the document
+    that its prevs name (`accepted_update_sound`) but by EVERY one: for each further version `v` that some prev names
+    there is a controller of `v` (`ControllerFor`) listing, for capabilityInvocation, a key with the thumbprint of the
+    key the `kid` resolves to. So a key that a later version removed cannot take the document over by naming the older
+    version first (repaired defect 963038a, witness harness/corpus/C09/removed-key-names-old-version-first.jsonl). -/
+theorem accepted_update_authorised_under_every_named_version (c : Cfg) (s s' : Store) (tx : Tx) (pd : Option NDoc)
+    (h : callback c s tx pd = .ok s') (hu : tx.embedded = none) :
+    ∃ d k others, pd = some d ∧ resolvePublicKey c.maxDepth s tx.kid tx.prevs = .ok k ∧
+      otherNamed s d.id tx.prevs = .ok others ∧
+      ∀ v ∈ others,
+        (∃ p ∈ tx.prevs, ∃ m, resolve s d.id (some { allowDeactivated := true, sourceTx := some p }) = .ok (v, m)) ∧
+        ∃ ctrl e k', ControllerFor c s tx v ctrl ∧ e ∈ ctrl.f .capInv ∧ KeyInfo.ofBody e.body = .key k' ∧
+          c.thumb k' = c.thumb k := by
+  obtain ⟨_, d, hpd, _, hcase⟩ := callback_ok_inv c s s' tx pd h
+  rcases hcase with ⟨k', hk', _⟩ | ⟨_, hup⟩
+  · rw [hu] at hk'; cases hk'
+  · obtain ⟨_, _, k, others, _, _, hk, _, ho, hco, _⟩ := handleUpdate_ok_inv2 c s s' tx d hup
+    refine ⟨d, k, others, hpd, hk, ho, fun v hv => ⟨otherNamed_mem s d.id tx.prevs others ho v hv, ?_⟩⟩
+    obtain ⟨ctrls, hc, hf⟩ := authorisedBy_true c s tx _ v (checkOthers_true c s tx _ others hco v hv)
+    obtain ⟨e, he, k', hk', ht⟩ := findKey_true c.thumb c.findKeyNilJwkErr (c.thumb k) _ hf
+    obtain ⟨ctrl, hctrl, hmem⟩ := mem_capInvOf ctrls e he
+    exact ⟨ctrl, e, k', ambControllers_sound c s v tx ctrls hc ctrl hctrl, hmem, hk', ht⟩
+
+/-- **The signing time is irrelevant when the prevs pin a controller.** If resolution by the transaction's prevs yields
+    any controller, `ambassador.resolveControllers` answers exactly those — whatever signing time the signer chose
+    (the by-signing-time resolution is a fallback for transactions whose prevs pin nothing;
+    `fact_ambassador_controller_resolution`). -/
+theorem signing_time_irrelevant_when_prevs_pin (c : Cfg) (s : Store) (doc : Doc) (tx tx' : Tx) (cs : List Doc)
+    (hp : tx'.prevs = tx.prevs) (h : ctrlsPerPrev c s doc tx.prevs = .ok cs) (hne : cs ≠ []) :
+    ambControllers c s doc tx = .ok cs ∧ ambControllers c s doc tx' = .ok cs := by
+  have hemp : cs.isEmpty = false := by cases cs with | nil => exact absurd rfl hne | cons _ _ => rfl
+  constructor
+  · unfold ambControllers; rw [h]; simp [hemp]
+  · unfold ambControllers; rw [hp, h]; simp [hemp]
+
 /-- with the signature verifier in front and collision-free thumbprints: the key that made the signature is itself
     listed for capabilityInvocation by a controller of the version the update succeeds -/
 theorem accepted_update_signed_by_controller_key (c : Cfg) (s s' : Store) (tx : Tx) (pd : Option NDoc)
@@ -219,7 +255,8 @@ theorem callback_accepts_iff (c : Cfg) (s s' : Store) (tx : Tx) (pd : Option NDo
       ((∃ k, tx.embedded = some k ∧ d.idID = c.didThumb k) ∨
        (tx.embedded = none ∧ ∃ cur ctrls k, currentVersion s d.id tx.prevs = .ok cur ∧
           ambControllers c s cur tx = .ok ctrls ∧ resolvePublicKey c.maxDepth s tx.kid tx.prevs = .ok k ∧
-          findKey c.thumb c.findKeyNilJwkErr (c.thumb k) (capInvOf ctrls) = .ok true)) ∧
+          findKey c.thumb c.findKeyNilJwkErr (c.thumb k) (capInvOf ctrls) = .ok true ∧
+          ∃ others, otherNamed s d.id tx.prevs = .ok others ∧ checkOthers c s tx (c.thumb k) others = .ok true)) ∧
       add c.store s (eventOf tx d) = .ok s') := by
   constructor
   · intro h
@@ -228,12 +265,12 @@ theorem callback_accepts_iff (c : Cfg) (s s' : Store) (tx : Tx) (pd : Option NDo
     rcases hcase with ⟨k, hk, hc⟩ | ⟨hu, hup⟩
     · obtain ⟨hid, hadd⟩ := handleCreate_ok c s s' tx k d hc
       exact ⟨Or.inl ⟨k, hk, hid⟩, hadd⟩
-    · obtain ⟨cur, ctrls, k, hcur, hctrls, hk, hf, hadd⟩ := handleUpdate_ok_inv c s s' tx d hup
-      exact ⟨Or.inr ⟨hu, cur, ctrls, k, hcur, hctrls, hk, hf⟩, hadd⟩
+    · obtain ⟨cur, ctrls, k, others, hcur, hctrls, hk, hf, ho, hco, hadd⟩ := handleUpdate_ok_inv2 c s s' tx d hup
+      exact ⟨Or.inr ⟨hu, cur, ctrls, k, hcur, hctrls, hk, hf, others, ho, hco⟩, hadd⟩
   · rintro ⟨hint, d, rfl, hval, hcase, hadd⟩
-    rcases hcase with ⟨k, hk, hid⟩ | ⟨hu, cur, ctrls, k, hcur, hctrls, hk, hf⟩
+    rcases hcase with ⟨k, hk, hid⟩ | ⟨hu, cur, ctrls, k, hcur, hctrls, hk, hf, others, ho, hco⟩
     · exact callback_of_create c s s' tx d k hint hval hk hid hadd
-    · exact callback_of_update c s s' tx d cur ctrls k hint hval hu hcur hctrls hk hf hadd
+    · exact callback_of_update c s s' tx d cur ctrls k hint hval hu hcur hctrls hk hf others ho hco hadd
 
 /-! ### a rejected document is inert -/
 
@@ -523,6 +560,16 @@ example : ((runHist cfg0 {} [
     (updateTx 200 [100] "did:nuts:Da" "b", some (docOf "a" ["a", "b"] ["a"])),
     (updateTx 300 [200] "did:nuts:Da" "b" 30, some (docOf "a" ["a", "b"] ["a", "b"]))]).get "did:nuts:Da").events.map (·.ref)
   = [100, 200] := by decide
+
+-- a key that version 200 removed signs an update naming BOTH the old (100) and the current (200) version: refused in
+-- either order (before /repo 963038a the order [100, 200] was accepted); naming only the old version is a fork (by design)
+example : runAll [
+    (createTx 100 "a", docOf "a" ["a", "b"] ["a", "b"]),
+    (updateTx 200 [100] "did:nuts:Da" "a", docOf "a" ["a", "b"] ["a"]),
+    (updateTx 300 [100, 200] "did:nuts:Da" "b" 30, docOf "a" ["b"] ["b"]),
+    (updateTx 310 [200, 100] "did:nuts:Da" "b" 30, docOf "a" ["b"] ["b"]),
+    (updateTx 320 [100] "did:nuts:Da" "b" 30, docOf "a" ["b"] ["b"])]
+  = ["ok", "ok", "err:update:not-signed-by-controller", "err:update:not-signed-by-controller", "ok"] := by decide
 
 -- REPROCESS over a history holding a rejected ill-formed document (key id not the thumbprint) changes nothing
 example :
